@@ -116,7 +116,7 @@ func corpus() []scenario {
 
 func run(r *core.Run) {
 	r.Rule = "scenarios = initial rings (0-2 keys in assorted states) + 2-3 handles (writers with 1-3 operations from add/setCurrent/setState/destroy, or readers) on the same or different rings over one shared back end; " +
-		"modes: exhaustive (every interleaving of back-end calls under a deterministic scheduler), scripted (random schedule), free (real goroutines), procs (separate processes, thorough); " +
+		"modes: exhaustive (every interleaving of back-end calls under a deterministic scheduler), scripted (random schedule), free (real goroutines), procs (one OS process per handle on a shared directory), v1-shared (8 goroutines reading through one v1 handle with cache size 1 / unlimited / off); " +
 		"a case is non-trivial when at least one back-end call was made; distinct by scenario + schedule"
 	rd := r.Rand.Fork()
 	schedules := 0
@@ -184,6 +184,18 @@ func run(r *core.Run) {
 		r.Diff(o.line, o.impl)
 		judge(r, o)
 	}
+	// 4. separate processes sharing one directory back end (flock between processes)
+	n = r.N(4, 150)
+	for i := 0; i < n; i++ {
+		sc := genScenario(rd)
+		sc.dir = true
+		o := runProcs(sc)
+		r.Begin(sc.key()+fmt.Sprintf("procs%d", i), len(o.trace) > 0, "mode:procs")
+		r.Diff(o.line, o.impl)
+		judge(r, o)
+	}
+	// 5. one v1 handle shared by many goroutines
+	runV1Shared(r)
 	r.Extra["schedules_enumerated"] = schedules
 	r.Exhaustive = true
 	r.Note("exhaustive part: every interleaving (at back-end-call granularity) of each enumerated two-writer scenario was executed on the real key store and replayed through the model")
